@@ -1579,7 +1579,8 @@ where
     #[inline(always)]
     pub fn skip_one(&mut self) -> Result<(&'de [u8], ParseStatus)> {
         let ch = self.skip_space();
-        let start = self.read.index() - 1;
+        // nothing has been read when the input is empty or all whitespace
+        let start = self.read.index().saturating_sub(1);
         let mut status = ParseStatus::None;
         match ch {
             Some(c @ b'-' | c @ b'0'..=b'9') => {
@@ -1605,7 +1606,8 @@ where
     #[inline(always)]
     pub fn skip_one_unchecked(&mut self) -> Result<(&'de [u8], ParseStatus)> {
         let ch = self.skip_space();
-        let start = self.read.index() - 1;
+        // nothing has been read when the input is empty or all whitespace
+        let start = self.read.index().saturating_sub(1);
         let mut status = ParseStatus::None;
         match ch {
             Some(b'-' | b'0'..=b'9') => self.skip_number_unsafe(),
